@@ -33,6 +33,11 @@ func (x *World) observeAll() *Violation {
 			return x.viol("lock", "IsLocked()=%v, model has %d open queries", got, x.M.OpenCount())
 		}
 	}
+	if x.Or.Tuple != nil {
+		if v := x.checkTuple(x.Or.Tuple); v != nil {
+			return v
+		}
+	}
 	if x.Or.Res {
 		if v := x.checkResources(); v != nil {
 			return v
@@ -616,4 +621,50 @@ func (x *World) deadSamples() []int {
 		out = append(out, b)
 	}
 	return out
+}
+
+// checkTuple: the typed mapper of the ordered tuple returns, for every alive entity, pointers in
+// type-parameter order that are address-equal to ID-based access (nil for missing components).
+func (x *World) checkTuple(tuple []ct.Comp) *Violation {
+	m := x.mapper(model.PathMapN, tuple)
+	u := x.W.Unsafe()
+	all := ct.Of(tuple...)
+	for _, i := range x.M.Alive() {
+		if i >= len(x.H) {
+			continue
+		}
+		h := x.H[i]
+		e := &x.M.Ents[i]
+		for pass, ptrs := range [][]unsafe.Pointer{m.Get(h), m.GetUnchecked(h)} {
+			if len(ptrs) != len(tuple) {
+				return x.viol("typed", "Map%d.Get returned %d pointers", len(tuple), len(ptrs))
+			}
+			for k, c := range tuple {
+				var want unsafe.Pointer
+				if e.Comps.Has(c) {
+					want = u.Get(h, x.Env.ID(c))
+				}
+				if ptrs[k] != want {
+					return x.viol("typed", "Map%d%v Get(pass %d) pointer %d (%s) for entity #%d = %p, ID-based access gives %p", len(tuple), tuple, pass, k, c, i, ptrs[k], want)
+				}
+			}
+		}
+		if got := m.HasAll(h); got != (e.Comps&all == all) {
+			return x.viol("typed", "Map%d%v.HasAll(#%d)=%v, model components %s", len(tuple), tuple, i, got, e.Comps)
+		}
+		if e.Comps&all == all {
+			for _, c := range tuple {
+				if ct.IsRel(c) {
+					want := x.handle(e.Tgt[c])
+					if got := m.GetRelation(h, c); got != want {
+						return x.viol("typed", "Map%d%v.GetRelation(#%d, index of %s)=%v, model says %v", len(tuple), tuple, i, c, got, want)
+					}
+					if got := m.GetRelationUnchecked(h, c); got != want {
+						return x.viol("typed", "Map%d%v.GetRelationUnchecked(#%d, index of %s)=%v, model says %v", len(tuple), tuple, i, c, got, want)
+					}
+				}
+			}
+		}
+	}
+	return nil
 }
